@@ -139,4 +139,4 @@ def check(chk, facts):
         n += 1
         chk.ob(rule, "kind:%s" % vn, ok, "is_projectable accepts %s — %s" % (vn, det), where=f.where(), fn=name, key="%s:kind:%s" % (rule, vn),
                sample={"kind": vn, "own_error_sources": src[:4]})
-    chk.floor(rule, "accepted kinds examined", n, 5)
+    chk.floor(rule, "accepted kinds examined", n, 4)
